@@ -174,7 +174,8 @@ def run_sets(ctx, exe, proto, lists, rows, by, thorough):
                 for v in bad + good[:1 if not thorough else 2]:
                     cmds.append("T %s %s %s %s" % (s, hexn(name), typ, v))
                     meta.append((s, name, typ, v, row, listed.get(name)))
-            if thorough:
+            if thorough or name in ("xcm.blocking", "no.such.attr", names[0]):
+                # a type value outside enum xcm_attr_type: a wrong type like any other (EINVAL), never an abort (F-10d)
                 cmds.append("T %s %s 9 01" % (s, hexn(name)))
                 meta.append((s, name, "9", "01", row, listed.get(name)))
     rc, out, err = sysattr.run(exe, cmds + ["X"], ctx, timeout=900)
